@@ -427,16 +427,16 @@ package rib
 //@ loop 5 invariant forall i in old(len(sent(msgCh)))..len(sent(msgCh)), j in old(len(sent(msgCh)))..len(sent(msgCh)) :: i != j && msg_nhg(sent(msgCh)[i], r.name) && msg_nhg(sent(msgCh)[j], r.name) ==> key_nhg(sent(msgCh)[i]) != key_nhg(sent(msgCh)[j])
 //@ loop 5 invariant forall i in old(len(sent(msgCh)))..len(sent(msgCh)), j in old(len(sent(msgCh)))..len(sent(msgCh)) :: i != j && msg_nh(sent(msgCh)[i], r.name) && msg_nh(sent(msgCh)[j], r.name) ==> key_nh(sent(msgCh)[i]) != key_nh(sent(msgCh)[j])
 // lemmas at the merge point after each table's loop (executed or skipped): the tables handled so far are complete
-//@ assert at "if filter[spb.AFTType_IPV6] {" [done-v4-before-v6] (old(filter[spb.AFTType_ALL]) || old(filter[spb.AFTType_IPV4])) ==> forall k in dom(r.r.Afts.Ipv4Entry) :: old(len(sent(msgCh))) <= getpos_v4[k] && getpos_v4[k] < len(sent(msgCh)) && msg_v4(sent(msgCh)[getpos_v4[k]], r.name) && key_v4(sent(msgCh)[getpos_v4[k]]) == k
-//@ assert at "if filter[spb.AFTType_MPLS] {" [done-v4-before-mpls] (old(filter[spb.AFTType_ALL]) || old(filter[spb.AFTType_IPV4])) ==> forall k in dom(r.r.Afts.Ipv4Entry) :: old(len(sent(msgCh))) <= getpos_v4[k] && getpos_v4[k] < len(sent(msgCh)) && msg_v4(sent(msgCh)[getpos_v4[k]], r.name) && key_v4(sent(msgCh)[getpos_v4[k]]) == k
-//@ assert at "if filter[spb.AFTType_MPLS] {" [done-v6-before-mpls] (old(filter[spb.AFTType_ALL]) || old(filter[spb.AFTType_IPV6])) ==> forall k in dom(r.r.Afts.Ipv6Entry) :: old(len(sent(msgCh))) <= getpos_v6[k] && getpos_v6[k] < len(sent(msgCh)) && msg_v6(sent(msgCh)[getpos_v6[k]], r.name) && key_v6(sent(msgCh)[getpos_v6[k]]) == k
-//@ assert at "if filter[spb.AFTType_NEXTHOP_GROUP] {" [done-v4-before-nhg] (old(filter[spb.AFTType_ALL]) || old(filter[spb.AFTType_IPV4])) ==> forall k in dom(r.r.Afts.Ipv4Entry) :: old(len(sent(msgCh))) <= getpos_v4[k] && getpos_v4[k] < len(sent(msgCh)) && msg_v4(sent(msgCh)[getpos_v4[k]], r.name) && key_v4(sent(msgCh)[getpos_v4[k]]) == k
-//@ assert at "if filter[spb.AFTType_NEXTHOP_GROUP] {" [done-v6-before-nhg] (old(filter[spb.AFTType_ALL]) || old(filter[spb.AFTType_IPV6])) ==> forall k in dom(r.r.Afts.Ipv6Entry) :: old(len(sent(msgCh))) <= getpos_v6[k] && getpos_v6[k] < len(sent(msgCh)) && msg_v6(sent(msgCh)[getpos_v6[k]], r.name) && key_v6(sent(msgCh)[getpos_v6[k]]) == k
-//@ assert at "if filter[spb.AFTType_NEXTHOP_GROUP] {" [done-mpls-before-nhg] (old(filter[spb.AFTType_ALL]) || old(filter[spb.AFTType_MPLS])) ==> forall k in dom(r.r.Afts.LabelEntry) :: old(len(sent(msgCh))) <= getpos_mpls[k] && getpos_mpls[k] < len(sent(msgCh)) && msg_mpls(sent(msgCh)[getpos_mpls[k]], r.name) && key_mpls(sent(msgCh)[getpos_mpls[k]]) == k
-//@ assert at "if filter[spb.AFTType_NEXTHOP] {" [done-v4-before-nh] (old(filter[spb.AFTType_ALL]) || old(filter[spb.AFTType_IPV4])) ==> forall k in dom(r.r.Afts.Ipv4Entry) :: old(len(sent(msgCh))) <= getpos_v4[k] && getpos_v4[k] < len(sent(msgCh)) && msg_v4(sent(msgCh)[getpos_v4[k]], r.name) && key_v4(sent(msgCh)[getpos_v4[k]]) == k
-//@ assert at "if filter[spb.AFTType_NEXTHOP] {" [done-v6-before-nh] (old(filter[spb.AFTType_ALL]) || old(filter[spb.AFTType_IPV6])) ==> forall k in dom(r.r.Afts.Ipv6Entry) :: old(len(sent(msgCh))) <= getpos_v6[k] && getpos_v6[k] < len(sent(msgCh)) && msg_v6(sent(msgCh)[getpos_v6[k]], r.name) && key_v6(sent(msgCh)[getpos_v6[k]]) == k
-//@ assert at "if filter[spb.AFTType_NEXTHOP] {" [done-mpls-before-nh] (old(filter[spb.AFTType_ALL]) || old(filter[spb.AFTType_MPLS])) ==> forall k in dom(r.r.Afts.LabelEntry) :: old(len(sent(msgCh))) <= getpos_mpls[k] && getpos_mpls[k] < len(sent(msgCh)) && msg_mpls(sent(msgCh)[getpos_mpls[k]], r.name) && key_mpls(sent(msgCh)[getpos_mpls[k]]) == k
-//@ assert at "if filter[spb.AFTType_NEXTHOP] {" [done-nhg-before-nh] (old(filter[spb.AFTType_ALL]) || old(filter[spb.AFTType_NEXTHOP_GROUP])) ==> forall k in dom(r.r.Afts.NextHopGroup) :: old(len(sent(msgCh))) <= getpos_nhg[k] && getpos_nhg[k] < len(sent(msgCh)) && msg_nhg(sent(msgCh)[getpos_nhg[k]], r.name) && key_nhg(sent(msgCh)[getpos_nhg[k]]) == k
+//@ assert at "if filter[spb.AFTType_IPV6] {" [lemma-done-v4-before-v6] (old(filter[spb.AFTType_ALL]) || old(filter[spb.AFTType_IPV4])) ==> forall k in dom(r.r.Afts.Ipv4Entry) :: old(len(sent(msgCh))) <= getpos_v4[k] && getpos_v4[k] < len(sent(msgCh)) && msg_v4(sent(msgCh)[getpos_v4[k]], r.name) && key_v4(sent(msgCh)[getpos_v4[k]]) == k
+//@ assert at "if filter[spb.AFTType_MPLS] {" [lemma-done-v4-before-mpls] (old(filter[spb.AFTType_ALL]) || old(filter[spb.AFTType_IPV4])) ==> forall k in dom(r.r.Afts.Ipv4Entry) :: old(len(sent(msgCh))) <= getpos_v4[k] && getpos_v4[k] < len(sent(msgCh)) && msg_v4(sent(msgCh)[getpos_v4[k]], r.name) && key_v4(sent(msgCh)[getpos_v4[k]]) == k
+//@ assert at "if filter[spb.AFTType_MPLS] {" [lemma-done-v6-before-mpls] (old(filter[spb.AFTType_ALL]) || old(filter[spb.AFTType_IPV6])) ==> forall k in dom(r.r.Afts.Ipv6Entry) :: old(len(sent(msgCh))) <= getpos_v6[k] && getpos_v6[k] < len(sent(msgCh)) && msg_v6(sent(msgCh)[getpos_v6[k]], r.name) && key_v6(sent(msgCh)[getpos_v6[k]]) == k
+//@ assert at "if filter[spb.AFTType_NEXTHOP_GROUP] {" [lemma-done-v4-before-nhg] (old(filter[spb.AFTType_ALL]) || old(filter[spb.AFTType_IPV4])) ==> forall k in dom(r.r.Afts.Ipv4Entry) :: old(len(sent(msgCh))) <= getpos_v4[k] && getpos_v4[k] < len(sent(msgCh)) && msg_v4(sent(msgCh)[getpos_v4[k]], r.name) && key_v4(sent(msgCh)[getpos_v4[k]]) == k
+//@ assert at "if filter[spb.AFTType_NEXTHOP_GROUP] {" [lemma-done-v6-before-nhg] (old(filter[spb.AFTType_ALL]) || old(filter[spb.AFTType_IPV6])) ==> forall k in dom(r.r.Afts.Ipv6Entry) :: old(len(sent(msgCh))) <= getpos_v6[k] && getpos_v6[k] < len(sent(msgCh)) && msg_v6(sent(msgCh)[getpos_v6[k]], r.name) && key_v6(sent(msgCh)[getpos_v6[k]]) == k
+//@ assert at "if filter[spb.AFTType_NEXTHOP_GROUP] {" [lemma-done-mpls-before-nhg] (old(filter[spb.AFTType_ALL]) || old(filter[spb.AFTType_MPLS])) ==> forall k in dom(r.r.Afts.LabelEntry) :: old(len(sent(msgCh))) <= getpos_mpls[k] && getpos_mpls[k] < len(sent(msgCh)) && msg_mpls(sent(msgCh)[getpos_mpls[k]], r.name) && key_mpls(sent(msgCh)[getpos_mpls[k]]) == k
+//@ assert at "if filter[spb.AFTType_NEXTHOP] {" [lemma-done-v4-before-nh] (old(filter[spb.AFTType_ALL]) || old(filter[spb.AFTType_IPV4])) ==> forall k in dom(r.r.Afts.Ipv4Entry) :: old(len(sent(msgCh))) <= getpos_v4[k] && getpos_v4[k] < len(sent(msgCh)) && msg_v4(sent(msgCh)[getpos_v4[k]], r.name) && key_v4(sent(msgCh)[getpos_v4[k]]) == k
+//@ assert at "if filter[spb.AFTType_NEXTHOP] {" [lemma-done-v6-before-nh] (old(filter[spb.AFTType_ALL]) || old(filter[spb.AFTType_IPV6])) ==> forall k in dom(r.r.Afts.Ipv6Entry) :: old(len(sent(msgCh))) <= getpos_v6[k] && getpos_v6[k] < len(sent(msgCh)) && msg_v6(sent(msgCh)[getpos_v6[k]], r.name) && key_v6(sent(msgCh)[getpos_v6[k]]) == k
+//@ assert at "if filter[spb.AFTType_NEXTHOP] {" [lemma-done-mpls-before-nh] (old(filter[spb.AFTType_ALL]) || old(filter[spb.AFTType_MPLS])) ==> forall k in dom(r.r.Afts.LabelEntry) :: old(len(sent(msgCh))) <= getpos_mpls[k] && getpos_mpls[k] < len(sent(msgCh)) && msg_mpls(sent(msgCh)[getpos_mpls[k]], r.name) && key_mpls(sent(msgCh)[getpos_mpls[k]]) == k
+//@ assert at "if filter[spb.AFTType_NEXTHOP] {" [lemma-done-nhg-before-nh] (old(filter[spb.AFTType_ALL]) || old(filter[spb.AFTType_NEXTHOP_GROUP])) ==> forall k in dom(r.r.Afts.NextHopGroup) :: old(len(sent(msgCh))) <= getpos_nhg[k] && getpos_nhg[k] < len(sent(msgCh)) && msg_nhg(sent(msgCh)[getpos_nhg[k]], r.name) && key_nhg(sent(msgCh)[getpos_nhg[k]]) == k
 //@ assigns sent(msgCh), recvd(stopCh), getpos_v4, getpos_v6, getpos_mpls, getpos_nhg, getpos_nh
 //@ props C07 C11:lock C12:safety
 // ---- END Get (C07) ----
